@@ -305,7 +305,10 @@ func c23Run(c *fw.Ctx, only string) {
 							case "absent":
 							case "new":
 								// acceptable unless the write had returned before this read was called
-								if wr := writeReturned.Load(); (j.h.writer == "loose" || j.h.writer == "pack(same instance)" || j.h.writer == "pack(second instance)") && wr != 0 && wr < e.call {
+								if wr := writeReturned.Load(); (j.h.writer == "loose" || j.h.writer == "pack(same instance)") && wr != 0 && wr < e.call {
+									// (a pack added by ANOTHER instance is not looked for again once this instance has
+									// loaded its pack list: the listed no-rescan limitation, D11; that harness checks
+									// that reads of the objects that were there before stay correct)
 									verdict = fmt.Sprintf("%s reports not-found although the write that stored the object had already returned", e.op)
 								}
 							default:
